@@ -7,6 +7,7 @@ import Drivers.Search
 import Drivers.Matrix
 import Drivers.Comm
 import Drivers.NodeCell
+import Drivers.Codec
 
 /-! `refdrv <driver> [args]` : dispatch to a line-protocol driver. One match arm per driver, on one line. -/
 
@@ -19,6 +20,7 @@ def main (args : List String) : IO UInt32 := do
   | "matrix" :: rest => Drivers.Matrix.run rest
   | "comm" :: rest => Drivers.Comm.run rest
   | "nodecell" :: rest => Drivers.NodeCell.run rest
+  | "codec" :: rest => Drivers.Codec.run rest
   | _ =>
     IO.eprintln s!"refdrv: unknown driver {args}"
     return 2
